@@ -27,6 +27,10 @@ def c18(ctx):
     overrides_rule(ctx, "C18.R1")
     inspected_rule(ctx, "C18.R2")
     spelling_guard_rule(ctx, "C18.R4")
+    rep.rule("C18.R6", "one rendering of the value: in the linter no float-to-integer conversion (`as u64`, `as i64` ..., which saturate and "
+             "truncate) produces text -- no such cast flows into to_string / a format argument / a string being built; the words and the "
+             "report both come from the f64's own Display")
+    text_from_cast_rule(ctx, "C18.R6")
     # the value named in the report is the folder's: re-run the folder/interpreter agreement rules under this property
     rep.rule("C18.R5", "the reported value is the one execution computes: the agreement rules of C17 (operator map, operand order, fold "
              "shape, never for non-constants) re-checked here, because a wrong fold makes the report and its suggestion wrong")
@@ -245,3 +249,42 @@ def spelling_guard_rule(ctx, rule):
         rep.ob(rule, "string-suggestion-guarded", ok, "" if ok else "a `says` suggestion can be made for a string containing a line break (a poetic string ends at the end of the line)", fn.loc(), how="(!value.contains('\\n')).then(..)")
 
 
+
+
+
+def text_from_cast_rule(ctx, rule):
+    F, rep = ctx.F, ctx.rep
+    from ..flow import Labels
+    SINKS = ("to_string", "new_display", "new_debug", "new_lower_exp", "new_upper_exp", "push_str", "write_str", "format", "push", "to_digit", "from_digit")
+    n_fns = 0
+    n_casts = 0
+    for fn in F.all_fns(tests=False):
+        if fn.kind == "closure" or not (fn.file.startswith("src/linter/") or fn.file == "src/analysis/tools.rs") or fn.is_derived() or not fn.mir:
+            continue
+        n_fns += 1
+        seeds = {}
+        where = {}
+        for body in F.with_closures(fn):
+            for bi, si, st in body.assigns():
+                if st["rv"].get("cast") == "FloatToInt":
+                    seeds.setdefault((body.path, st["pl"]["l"]), set()).add(("cast", body.path, bi, si))
+                    where[("cast", body.path, bi, si)] = body.loc(st.get("line"))
+        if not seeds:
+            continue
+        rep.analysed(fn)
+        lab = Labels(F, fn, seeds)
+        for lbl in sorted(where):
+            n_casts += 1
+            hit = None
+            for body in F.with_closures(fn):
+                for bi, t in body.calls():
+                    if t["callee"].get("name") in SINKS and any(lbl in lab.op_labels(body, a) for a in t["args"]):
+                        hit = (body, t)
+                        break
+                if hit:
+                    break
+            ok = hit is None
+            rep.ob(rule, "float-to-int-into-text::%s#%d" % (fn.path, sorted(where).index(lbl)), ok,
+                   "" if ok else "%s converts a floating-point value to an integer and turns the result into text (%s, line %s): beyond the integer type's range the conversion saturates, so the text no longer spells the value" % (
+                       fn.path, hit[1]["callee"].get("def"), hit[1]["line"]), where[lbl], how="the converted value never becomes text")
+    rep.ob(rule, "scanned", n_fns >= 20, "" if n_fns >= 20 else "only %d linter functions found" % n_fns, None, how="%d functions of the linter and the folders scanned, %d float-to-integer casts" % (n_fns, n_casts))
